@@ -37,7 +37,8 @@ class World:
             return os.path.join(path, kids[0], "..") if kids else path
         if how == "symlink_alias":
             # a symbolic link with ANOTHER name that points to the directory
-            link = os.path.join(self.sandbox, "alias-" + hashlib.sha256(path.encode("utf-8")).hexdigest()[:8])
+            # (named after the path below the sandbox: the name of the scratch directory is not a scheduler decision)
+            link = os.path.join(self.sandbox, "alias-" + hashlib.sha256(os.path.relpath(path, self.sandbox).encode("utf-8")).hexdigest()[:8])
             if not os.path.islink(link):
                 os.symlink(path, link)
             return link
@@ -55,7 +56,7 @@ class World:
             # the kernel, while a lexical normalisation would give "<sandbox>/leaf"
             parent, leaf = os.path.split(path.rstrip(os.sep))
             os.makedirs(os.path.join(parent, "zz-linktarget"), exist_ok=True)
-            link = os.path.join(self.sandbox, "lnk-%d" % (abs(hash(parent)) % 1000 if False else len(parent)))
+            link = os.path.join(self.sandbox, "lnk-" + hashlib.sha256(os.path.relpath(parent, self.sandbox).encode("utf-8")).hexdigest()[:6])
             if not os.path.islink(link):
                 os.symlink(os.path.join(parent, "zz-linktarget"), link)
             spelled = os.path.join(link, "..", leaf)
